@@ -96,6 +96,35 @@ impl Model for M {
 		w.w("B").refresh().unwrap();
 		let s: Vec<Option<Slot>> = (0..self.nslots).map(|_| None).collect();
 		set_slots(&mut w, &s);
+		// background: a second account holds a live (locked, never finalised) send whose numeric
+		// log id equals the id the first transaction of the default account will get (log ids are
+		// per account), so that anything addressing transactions by bare id is exposed
+		{
+			let a = w.w("A");
+			a.create_account("acct1").unwrap();
+			a.set_account("acct1").unwrap();
+			w.mine_n("A", 1);
+			w.mine_n("M", 3);
+			a.refresh().unwrap();
+			let p1 = a.with(|b| b.parent_key_id());
+			a.set_account("default").unwrap();
+			a.refresh().unwrap();
+			let p0 = a.with(|b| b.parent_key_id());
+			let next0 = a.txs().iter().filter(|e| e.parent_key_id == p0).map(|e| e.id + 1).max().unwrap_or(0);
+			a.set_account("acct1").unwrap();
+			loop {
+				let next1 = a.txs().iter().filter(|e| e.parent_key_id == p1).map(|e| e.id + 1).max().unwrap_or(0);
+				if next1 >= next0 {
+					break;
+				}
+				a.issue_invoice(IssueInvoiceTxArgs { amount: G, ..Default::default() }).unwrap();
+			}
+			let bg = a.init_send(default_args(20 * G)).unwrap();
+			a.lock(&bg).unwrap();
+			a.set_account("default").unwrap();
+			let inputs: Vec<String> = a.get_context(&bg.id).unwrap().input_ids.iter().map(|i| i.0.to_bip_32_string()).collect();
+			w.meta.extra["background"] = json!({"id": bg.id.to_string(), "inputs": inputs});
+		}
 		w.close();
 	}
 
@@ -329,6 +358,11 @@ impl Model for M {
 						}
 					}
 				}
+				if w.meta.extra["background"]["id"] == json!(id.to_string()) {
+					for k in w.meta.extra["background"]["inputs"].as_array().unwrap() {
+						inputs.insert(k.as_str().unwrap().to_owned());
+					}
+				}
 			}
 			live.push(Live {
 				entry: t.id,
@@ -350,6 +384,19 @@ impl Model for M {
 							live[i].entry, live[j].entry, shared
 						),
 					);
+				}
+			}
+		}
+		// what a live transaction has reserved stays reserved until it is cancelled or confirmed
+		for l in live.iter() {
+			for k in l.inputs.iter() {
+				if let Some(o) = outs.iter().find(|o| o.key_id.to_bip_32_string() == *k) {
+					if o.status != OutputStatus::Locked && o.status != OutputStatus::Spent {
+						out.problem(
+							"live-transaction-input-released",
+							format!("log entry {} (slate {:?}) is live but its input {} is {}", l.entry, l.slate, k, status_str(&o.status)),
+						);
+					}
 				}
 			}
 		}
